@@ -317,7 +317,7 @@ class PanopticaResult(object):
         reference_empty = ref_binary.sum() == 0
         if prediction_empty or reference_empty:
             is_edgecase, result = self._edge_case_handler.handle_zero_tp(
-                metric, 0, int(prediction_empty), int(reference_empty)
+                metric, 0, int(not prediction_empty), int(not reference_empty)
             )
             if is_edgecase:
                 return result
